@@ -345,7 +345,7 @@ class Stream(AbstractStream):
                  **chemical_flows:float):
         self.equations: list[Callable] = Equations()
         #: Characterization factors for life cycle assessment [impact/kg].
-        self.characterization_factors: dict[str, float] = {} if characterization_factors is None else {}
+        self.characterization_factors: dict[str, float] = {} if characterization_factors is None else characterization_factors
         self._thermal_condition = tmo.ThermalCondition(T, P)
         thermo = self._load_thermo(thermo)
         chemicals = thermo.chemicals
